@@ -294,6 +294,24 @@ func runC16(e *core.Env) error {
 		case <-time.After(time.Second):
 		}
 		pg.Close()
+		if class != "" && verdict != "ok" && !strings.Contains(verdict, "did not collide") {
+			// the recorded finding has ONE symptom (a key column the integration does not write is NULL, so
+			// the re-insert does not collide); any other failure of such a configuration is not that finding
+			class = ""
+		}
+		if class == "" && shared && strings.HasPrefix(verdict, "first COPY of") && strings.Contains(verdict, "23505") {
+			// second recorded finding: the unique index is named after the TABLE (u_<table>) and created with
+			// "if not exists", so on a table shared by differently shaped integrations the first
+			// integration's key is the only one: an integration emitting several rows per transaction
+			// (trace actions, array elements, several logs) collides on a coarser key
+			differ := false
+			for _, u := range used[1:] {
+				differ = differ || u.name != used[0].name
+			}
+			if differ {
+				class = "C16.shared_table_first_key_wins"
+			}
+		}
 		e.Add(core.Case{Impl: verdict, Spec: "ok", Class: class, Key: fmt.Sprintf("c16-db %d %d", s, e.Seed), Nontrivial: true,
 			Tags: []string{"migrate+double-copy", fmt.Sprintf("shared=%v", shared), fmt.Sprintf("narrower=%v", narrower), "class=" + class}, Detail: detail})
 	}
